@@ -211,6 +211,8 @@ _SORTED = [[1, 2, 3], [1, 3, 5, 7], [10, 20, 30], ['a', 'b', 'c'], [1.5, 2.5, 3.
            ['apple', 'banana', 'cherry'], [-3, -1, 0, 4]]
 _DESC = [[3, 2, 1], [30, 20, 10], ['c', 'b', 'a'], [5, 5, 1]]
 
+POOL['T'] = [['a', 'b', 'c'], ['a', None, 'b'], 'x', None, 'y z', ['Nord', None, 'Sued'], [['a', 'b'], ['c', None]], '', ['', 'q']]
+POOL['T_'] = _MIXLISTS + [1, 2.5, True]
 POOL['N'] = _NUMLISTS
 POOL['N_'] = _MIXLISTS + [1, 2.5, 'a', None, True, E_NA]
 POOL['M'] = _MIXLISTS + _NUMLISTS
@@ -273,7 +275,7 @@ SIGS.update({
     # text
     'CHAR': ['j'], 'CODE': ['t'], 'CLEAN': ['t'], 'CONCAT': ['t+'], 'CONCATENATE': ['t+'], 'LEFT': ['t', 'u?'], 'LEFTB': ['t', 'u?'],
     'RIGHT': ['t', 'u?'], 'RIGHTB': ['t', 'u?'], 'MID': ['t', 'u', 'u?'], 'MIDB': ['t', 'u', 'u?'], 'LEN': ['t'], 'LENB': ['t'],
-    'LOWER': ['t'], 'UPPER': ['t'], 'PROPER': ['t'], 'TRIM': ['t'], 'SUBSTITUTE': ['t', 't', 't', 'u?'], 'TEXTJOIN': ['g', 'L', 'M+'],
+    'LOWER': ['t'], 'UPPER': ['t'], 'PROPER': ['t'], 'TRIM': ['t'], 'SUBSTITUTE': ['t', 't', 't', 'u?'], 'TEXTJOIN': ['g', 'L', 'T+'],
     # lookup
     'CHOOSE': ['u', 'a+'], 'INDEX': ['S', 'ix?', 'ix?'], 'MATCH': ['a', 'S', 'mt?'],
     # engineering
@@ -1024,10 +1026,27 @@ def sem_elementwise(c, im):
     return None
 
 
+def sem_textjoin(c, im):
+    """TEXTJOIN inserts the delimiter between the (flattened) items and skips blanks when asked to (C15), on text items"""
+    if c.get('fn') != 'TEXTJOIN' or len(c['args']) < 3:
+        return None
+    d, flag = c['args'][0], c['args'][1]
+    if not isinstance(d, str) or isinstance(flag, (str, list, dict)) or flag is None:
+        return None
+    items = _flat(c['args'][2:])
+    if not all(x is None or isinstance(x, str) for x in items):
+        return None
+    want = d.join([x for x in items if x is not None] if flag else ['' if x is None else x for x in items])
+    if im['base'] != [['str', want], None]:
+        return ('%s with %s gives %s; the items joined by the delimiter, blanks %s, are %r'
+                % (base_formula(c), json_short(c['args']), _show(im['base']), 'skipped' if flag else 'kept as empty items', want))
+    return None
+
+
 def oracle(c, im):
     if im.get('f') is None:
         return None
-    m = sem_trap(c, im) or sem_int_arith(c, im) or sem_exact(c, im) or sem_elementwise(c, im)
+    m = sem_trap(c, im) or sem_int_arith(c, im) or sem_exact(c, im) or sem_elementwise(c, im) or sem_textjoin(c, im)
     if m:
         return m
     what = c.get('fn') or c.get('tpl')
@@ -1278,7 +1297,8 @@ RULE_TEXT = (' Route layer (harness/routes.py, kind route; a random stream of it
              'parser\'s bindings equals the one before; for IFERROR / IFNA / ISERROR / ISERR / ISNA on scalar operands the record of the variable '
              'route is the one their definition gives, for + - * on two Python ints it is the exact int, for an operator template over short '
              'dyadic numbers with at most one comparison it is the exact evaluation of the tree (ints exactly, floats within 4 ulp, logicals '
-             'exactly), and array OP scalar / one-element array equals the list of the library\'s own scalar results. Model: '
+             'exactly), array OP scalar / one-element array equals the list of the library\'s own scalar results, and TEXTJOIN over text items is '
+             'the items joined by the delimiter, blanks skipped exactly when the flag is true-ish. Model: '
              '`eval` of the ROUTED formula with the cells, ranges and custom functions in the environment, compared as elsewhere '
              '(4 ulp / 1e-9). Non-trivial: no error entry and at least one operand off the variable route or a layout.')
 TRUSTED_TEXT = ('route layer: the variable route (the call with every operand bound by set_variable, commas, one line) is the '
